@@ -133,9 +133,21 @@ def c03(ctx):
         printer_slice(ctx, "smoke")
 
 
+def writer_model(ctx):
+    """MCWriter: every SafeWriter call sequence on builder / Sprintfn printer / SafeFormat printer in lockstep"""
+    consts = tier(ctx, dict(MaxOps=3, OpSetName='"Q"'), dict(MaxOps=3, OpSetName='"T"'))
+    ctx.tlc_replay("MCWriter", "Writer.cfg", ["writer-replay", "-prop", ctx.prop], consts=consts, workers=16)
+
+
 def c09(ctx):
+    writer_model(ctx)
     buffer_model(ctx)
     buffer_traces(ctx)
+
+
+def c16(ctx):
+    for sl in tier(ctx, ["qcls", "wrap"], ["cls", "wrap", "panic", "smoke", "qbytes"]):
+        printer_slice(ctx, sl, extra_consts=dict(Routes="TRUE"))
 
 
 def c13(ctx):
@@ -150,6 +162,13 @@ PRINTER_RULE = ("TLC runs the Printer specification (transcription of printArg/h
                 "and the property's predicate evaluated on the real output; distinct = distinct real outputs. ")
 
 PROPS = {
+    "C16": dict(run=c16, exhaustive=True, rule=PRINTER_RULE + (
+        "C16: for every case of the slices (classification shapes, wrapper nestings; thorough: also panicking methods, smoke, "
+        "concrete hot bytes) TLC evaluates the four routes (direct, StringBuilder.Print/Printf = PreRedactable write of a "
+        "finished text, SafePrinter.Print/Printf inside Sprintfn, inside a SafeFormat method) and checks equality up to "
+        "merging of adjacent envelopes; on the real code the 4 print-style or 4 printf-style routes are run on the same "
+        "operands and compared, Fprint/Fprintf with recording writers that succeed, fail and write short"), assumptions=[
+        "an argument list whose direct printing panics out is outside (a nested route adds a catchPanic layer)"]),
     "C15": dict(run=c15, exhaustive=True, rule=PRINTER_RULE + (
         "C15: slice errorf = formats of 1..3 directives from {%w %v %d %[1]w %[2]w %5w %+w %#w} (quick: 4 of them) x operand "
         "lists of length 0..2 over {error, error+Formatter, error+SafeFormatter, Safe(err), Unsafe(err), nil-receiver error, "
@@ -230,7 +249,14 @@ PROPS = {
         "raw (PreRedactable) writes are well-formed fragments, the mode's documented precondition"]),
     "C03": dict(run=c03, rule=BUFFER_RULE, exhaustive=True, assumptions=[
         "raw (PreRedactable) writes are well-formed, line-safe fragments"]),
-    "C09": dict(run=c09, rule=BUFFER_RULE, exhaustive=True, assumptions=[
+    "C09": dict(run=c09, rule=("MCWriter: TLC enumerates every sequence of at most 3 SafeWriter calls over 14 (quick) / 26 "
+        "(thorough) call instances (Safe/Unsafe String, Bytes, Rune, Byte, SafeInt, Print, Printf, Write with ordinary, marker, "
+        "LF, empty, truncated-UTF-8 and invalid-rune payloads), runs them in lockstep on the builder model and the printer "
+        "model in unsafe (Sprintfn) and safe (SafeFormat) ambient mode, and checks well-formedness, line-safety, the two "
+        "denotation equalities and pairwise agreement up to envelope merging; every sequence is replayed on the real "
+        "StringBuilder, Sprintfn and SafeFormat printers (byte-exact vs model; predicates from the call history alone). "
+        "ManualBuffer: ") + BUFFER_RULE, exhaustive=True, assumptions=[
+        "agreement between implementations is claimed for valid UTF-8 payloads (with truncated sequences the '?' guard lands at different points)",
         "the two equalities are claimed for valid UTF-8 payloads and valid runes only (property text)"]),
     "C13": dict(run=c13, rule=BUFFER_RULE, exhaustive=True, assumptions=[
         "Cap() and the aliasing RedactableBytes slice are outside the claim (property text speaks of strings)"]),
